@@ -63,9 +63,7 @@ pub open spec fn file_slice(c: Seq<u8>, start: int, end: int) -> Seq<u8> {
 #[verifier::external_type_specification]
 #[verifier::external_body]
 pub struct ExMetadata(std::fs::Metadata);
-#[verifier::external_type_specification]
-#[verifier::external_body]
-pub struct ExFile(std::fs::File);
+// (std::fs::File is declared in shims/core.rs)
 #[verifier::external_type_specification]
 #[verifier::external_body]
 pub struct ExPathBuf(std::path::PathBuf);
